@@ -125,7 +125,7 @@ def write_ndjson(path, recs):
 # --------------------------------------------------------------------------
 # TLC
 
-_PRINT_RE = re.compile(r'^<<"(FAIL|DRIFT|STAT|CASES|INFO)"')
+_PRINT_RE = re.compile(r'^<<\s*"(FAIL|DRIFT|STAT|CASES|INFO)"')
 
 
 def parse_tla_value(s):
@@ -229,12 +229,21 @@ def tlc(ctx, module, cfg, env=None, workers=4, timeout=1200, xmx="4g", dfs=False
     res["ok"] = ("Model checking completed. No error has been found." in out) or \
                 (simulate is not None and not res["errors"] and p.returncode == 0)
     prints = []
-    for line in out.splitlines():
+    lines = out.splitlines()
+    k = 0
+    while k < len(lines):
+        line = lines[k]
         if _PRINT_RE.match(line):
+            # TLC's pretty printer wraps long values over several lines
+            buf = line
+            while buf.count("<<") > buf.count(">>") and k + 1 < len(lines):
+                k += 1
+                buf += " " + lines[k].strip()
             try:
-                prints.append(parse_tla_value(line))
+                prints.append(parse_tla_value(buf))
             except Exception:
-                raise ToolError("cannot parse TLC output line: " + line)
+                raise ToolError("cannot parse TLC output: " + buf[:300])
+        k += 1
     res["prints"] = prints
     return res
 
